@@ -162,7 +162,10 @@ def check_anchors(scratch, units):
             if m:  # "{k} regex": the signature occurs k times (e.g. a method and its inner namesake)
                 want, rx = int(m.group(1)), m.group(2)
             n = len(re.findall(rx, open(p).read()))
-            if n != want:
+            # fewer matches than recorded = the code under contract moved or was renamed (undecided);
+            # MORE matches (e.g. a new impl of the same trait method) is not a lost anchor: the harnesses
+            # call the real items by path and are re-checked against whatever now implements them
+            if n < want:
                 lost.append(f"{u.name}: anchor /{rx}/ matches {n}x in {f} (expected {want})")
     return lost
 
